@@ -55,7 +55,7 @@ MAPPING_EXCEPT = ('do_read_compressed',)
 
 
 def run(ctx, rep):
-    f = ctx.lib.without_async_folding()
+    f = ctx.lib
     rep.explanation = (
         'C16: offset, length and buffer of every backend request are decided by an alignment analysis (multiples of '
         '2^shift with symbolic block/slice/cluster shifts, on top of the interval engine), modular over the async call '
